@@ -331,6 +331,15 @@ pub fn check(problem: &PProblem, solution: &Value, opts: &OracleOptions) -> Vec<
             let stop_loc = stop.loc.unwrap_or(prev_loc);
             if si > 0 {
                 // travel
+                // time-dependent routing: the matrix in effect when the leg starts
+                let matrix = match problem.matrix_at(&vt.profile, prev_departure) {
+                    Ok(Some(m)) => m,
+                    Ok(None) => matrix,
+                    Err(()) => {
+                        replay_undefined = true;
+                        matrix
+                    }
+                };
                 if matrix.unreachable(prev_loc, stop_loc) {
                     f.push(Finding::new("C01:unreachable-leg", here(&format!("leg {prev_loc}->{stop_loc} is flagged unreachable"))));
                     // the matrix defines no travel time/distance for this leg: reported numbers cannot be replayed
